@@ -33,11 +33,12 @@ RESOURCES = {
     'input': None, 'flow_stack': 'fs_len', 'code': 'cs_len', 'debug_map': 'cs_len', 'dict': 'di_len',
     # what build-time execution (meta blocks, immediate words) leaves on the run-time stacks
     'data_stack': None, 'return_stack': 'rs_len', 'loops': 'ls_len', 'special': 'ss_ptr', 'sources': None,
+    # cells that `var` allocates while the source is built
+    'heap': None,
 }
 CORE_RESOURCES = ('input', 'flow_stack', 'code', 'debug_map', 'dict')      # identify a release function
 # State fields that code reachable from a build entry grows and that are deliberately not rolled back
 GROWN_EXEMPT = {
-    'heap': 'cells allocated by a rejected source are unreachable once its dictionary entries are gone (listed assumption)',
     'reverse_log': 'the debugger log records what happened, rejected or not; it does not influence later sources (C15.R1)',
     'stdout': 'captured output that was already produced',
     'nested': 'restored by popping (releases:nested)', 'ctx': 'restored from nested (releases:ctx)',
@@ -344,6 +345,32 @@ def run(rep, facts, tier):
                 'context_close pops the saved context and can return (bb%s) without restoring State.ctx: mode and stack base are lost'
                 % '->bb'.join(map(str, p[:8])), close, w['at'])
     rep.floor('C10 context_close pop sites', len(pops), 1)
+
+    # cutting back to marks undoes what the BUILDER did.  Code of the program that runs while a source is still being read can
+    # do anything to the live state (pop the data stack, store into a variable, print): it may run only where it is sealed (a
+    # meta context: C11) or after the source has been accepted (the run that closes an Eval context)
+    from .. import stepfx
+    from .c11 import guards_of
+    RUN = 'state::State::run'
+    on_build_path = fx.reachable_from(['state::State::build1']) | {'state::State::build1'}
+    n_run = 0
+    for caller in sorted(stepfx.callers_seen_through(fx, V, RUN)):
+        base = caller.split('::{closure')[0]
+        if base not in on_build_path:
+            continue
+        f = V(caller)
+        for bb, t in f.calls():
+            if callee_of(t) != RUN:
+                continue
+            n_run += 1
+            moded = any(isinstance(e, tuple) and e[0] == 'call' and 'cmp::PartialEq' in e[1] and 'ctx.mode' in expr_str(e, -10) and side == e[1].endswith('::eq')
+                        and ('ContextMode::MetaEval' in repr(e) or 'ContextMode::Eval' in repr(e)) for (_, e, side) in guards_of(f, bb))
+            rep.add('C10.R1', 'C10.R1:build-time-execution-is-sealed:%s' % caller, moded,
+                    'run() under a test of the context mode: a sealed meta block, or the run of an accepted source' if moded else
+                    '%s runs program code in the building context while the source is still being read: what that code does to the data stack, '
+                    'variables and output is not undone when the source is rejected afterwards (`1 2`, `: eat immediate drop ;`, then the rejected '
+                    '`eat zz` leaves [1])' % short(caller), caller, t.get('at'))
+    rep.floor('C10.R1 calls of run() on the build path', n_run, 2)
 
     check_r2(rep, fx, W, V, Wv)
     check_r3(rep, fx, V)
